@@ -15,7 +15,7 @@ EXTENDS Naturals
 \* TryFrom<&[u8]> / TryFrom<&[u8; N]>, store_into_bytes / store_into_str_bytes,
 \* accessors, quartile, clear_checksum, compare_with_config and the part
 \* distances, max_distance, FuzzyHashLengthEncoding::new / try_from / range.
-CoreEvents == {"gen_new", "gen_update", "gen_clone", "gen_fin", "parse", "parse_sweep", "frombytes", "store",
+CoreEvents == {"gen_new", "gen_update", "gen_update_p", "gen_clone", "gen_fin", "parse", "parse_sweep", "frombytes", "store",
                "fmt", "fmt_sweep", "cmp", "dist_matrix", "len_run", "len_code"}
 Unconstrained == {"stream_end", "file", "file_err", "ser", "de", "de_doc", "cmpstr"}
 
